@@ -1,6 +1,11 @@
 E1N = "explicit-state exploration of the implementation under a controlled event loop"
 E3I = "bounded-exhaustive input enumeration vs reference model"
+E1T = "Explicit-state exploration of the real Receiver.listen()/callback() coroutines on a hand-stepped asyncio loop: from every quiescent state every enabled external event (broker delivery, task-body completion, save/ack/hook/dependency completion, stop request, earliest timer; plus pairs of events injected into the same loop iteration up to the stated deviation level) is fired, states are matched on a fingerprint of the live coroutine frames + semaphores/queue + environment + monitor state, and safety oracles run at every observable event. "
+E1NOTE = "Trusted: CPython's asyncio Task/Future/Queue/Semaphore and anyio (executed unmodified on the stepped loop); the fingerprint abstraction (guarded by menu-equality on revisits and a stateless cross-check in the thorough tier); scripted broker/backend/executor stand for the environment. Bounds are small scopes (messages, A, P, N, deviation level) listed in the evidence."
 TABLE = {
+    "C01": ("E1", E1N,
+            E1T + "For C01: all (A,P,N,stream) configurations in the bound x message lists over {valid, raising, malformed, unknown}; oracle: each taken valid message starts exactly once, junk never starts, nothing taken is left unexecuted at return.",
+            E1NOTE, "DESIGN.md 2.1, 3/C01"),
     "C14": ("E3", E3I,
             "Every (now, T, spelling) of a stated grid (all seconds of the minute, boundary microseconds, T within -3..+63 s of now / the minute boundary / +-1,2 days, 8 zone spellings) is evaluated with the real get_task_delay under a scripted clock and judged by the property's three-way case split. Exhaustive over that grid, nothing sampled; the right level because the property is a pure function of (now, T) whose failure modes sit at second/minute boundaries.",
             "Trusted: the scripted replacement of run.datetime; Python datetime arithmetic used by the oracle. Instants outside the grid are not covered (small-scope).",
